@@ -265,6 +265,19 @@ def run(ctx):
                 if y.get('k') == 'CXXMemberCallExpr' and (y.get('fn') or '').endswith('::substr') and \
                         len([a for a in y['c'][1:] if strip_all(a).get('k') != 'DefaultArg']) == 1:
                     remainder.append(y['l'])
+    # a splitter with a limit argument whose body takes the remainder (one-argument substr) is the same idiom moved into a helper
+    bounded = []
+    for x in walk(db):
+        if x.get('k') == 'CallExpr' and x.get('fn') in splitter and x.get('fid'):
+            has_limit = any(strip_all(a).get('k') == 'IntegerLiteral' or (strip_all(a).get('t') or '').replace('const ', '') in ('int', 'unsigned int', 'std::size_t', 'unsigned long', 'size_t')
+                            for a in x['c'][1:])
+            for g in F.fns.get(x['fid'], []):
+                gb = F.body(g)
+                if has_limit and gb is not None and any(y.get('k') == 'CXXMemberCallExpr' and (y.get('fn') or '').endswith('::substr') and
+                                                        len([a for a in y['c'][1:] if strip_all(a).get('k') != 'DefaultArg']) == 1 for y in walk(gb['body'])):
+                    bounded.append(x['fn'])
+    if splitter and set(splitter) <= set(bounded):
+        splitter, remainder = [], remainder or [decl['l']]
     ok = bool(remainder) and not splitter
     lastf = frame_w[-1][1][0] if frame_w and len(frame_w[-1][1]) == 1 else '?'
     ctx.ob('R15.7', 'frame-remainder', ok, ('the last frame part (FileLocation::%s) is taken as the remainder of the frame (substr with one argument, line %s)' % (lastf, remainder[0])) if ok else
